@@ -187,9 +187,10 @@ func (p *plan) hit() bool {
 }
 
 type faulty struct {
-	inner  distsys.ArchetypeResource
-	pl     *plan
-	pcFail *bool // only for the top-level wrapper
+	inner   distsys.ArchetypeResource
+	pl      *plan
+	pcFail  *bool  // only for the top-level wrapper
+	onWrite func() // called after a WriteValue that succeeded
 }
 
 func (f *faulty) Abort(iface distsys.ArchetypeInterface) chan struct{} { return f.inner.Abort(iface) }
@@ -221,7 +222,11 @@ func (f *faulty) WriteValue(iface distsys.ArchetypeInterface, v tla.Value) error
 	if f.pl.hit() {
 		return distsys.ErrCriticalSectionAborted
 	}
-	return f.inner.WriteValue(iface, v)
+	err := f.inner.WriteValue(iface, v)
+	if err == nil && f.onWrite != nil {
+		f.onWrite()
+	}
+	return err
 }
 func (f *faulty) Index(iface distsys.ArchetypeInterface, idx tla.Value) (distsys.ArchetypeResource, error) {
 	if f.pl.hit() {
@@ -231,7 +236,7 @@ func (f *faulty) Index(iface distsys.ArchetypeInterface, idx tla.Value) (distsys
 	if err != nil {
 		return nil, err
 	}
-	return &faulty{inner: sub, pl: f.pl}, nil
+	return &faulty{inner: sub, pl: f.pl, onWrite: f.onWrite}, nil
 }
 
 // ---------------------------------------------------------------- resources of a case
@@ -243,6 +248,10 @@ type bound struct {
 	snap   func(keys []interface{}) interface{}
 	env    func(ev []interface{})
 	close  func()
+	// networked senders: how many values the peer must eventually hold (what a committed section wrote to a TCP
+	// mailbox; what any WriteValue put on the wire of a relaxed mailbox), so that the snapshot waits for them
+	onWrite  func()
+	onFinish func(committed bool)
 }
 
 var sentinel = tla.MakeString("\x00full")
@@ -579,12 +588,29 @@ func (r *runner) makeBound(d resDesc) *bound {
 		}
 		b.res = sendSide
 		seen := []interface{}{}
+		expected, pending := 0, 0
+		if d.Kind == "relaxed" {
+			b.onWrite = func() { expected++ }
+		} else {
+			b.onWrite = func() { pending++ }
+			b.onFinish = func(committed bool) {
+				if committed {
+					expected += pending
+				}
+				pending = 0
+			}
+		}
 		b.snap = func([]interface{}) interface{} {
+			deadline := time.Now().Add(5 * time.Second)
 			for {
 				v, err := local.ReadValue(r.scratch)
 				if err != nil {
 					local.Abort(r.scratch)
-					break
+					// nothing within the read timeout: done once everything owed has arrived (or we give up)
+					if len(seen) >= expected || time.Now().After(deadline) {
+						break
+					}
+					continue
 				}
 				seen = append(seen, fromTLA(v))
 				local.Commit(r.scratch)
@@ -762,6 +788,11 @@ func (rec recorder) RecordEvent(ev trace.Event) {
 	} else {
 		r.results[r.cur-1].Out = 0
 	}
+	for _, b := range r.bounds {
+		if b.onFinish != nil {
+			b.onFinish(!ev.IsAbort)
+		}
+	}
 }
 
 func runCase(k kase, db *badger.DB, root string) (res result) {
@@ -780,7 +811,7 @@ func runCase(k kase, db *badger.DB, root string) (res result) {
 		b.pcFail = new(bool)
 		r.bounds[d.Name] = b
 		r.order = append(r.order, d.Name)
-		cfg = append(cfg, distsys.EnsureArchetypeRefParam(d.Name, &faulty{inner: b.res, pl: r.pl, pcFail: b.pcFail}))
+		cfg = append(cfg, distsys.EnsureArchetypeRefParam(d.Name, &faulty{inner: b.res, pl: r.pl, pcFail: b.pcFail, onWrite: b.onWrite}))
 		refParams = append(refParams, "A."+d.Name)
 	}
 	defer func() {
